@@ -57,7 +57,122 @@ def gen_c16(tier, seed):
     return {"v3": lines, "stats": {"rect_lines": len(lines), "grid_n": 5 if tier == "quick" else 8}}
 
 
+def gen_c14(tier, seed):
+    rnd = random.Random(seed * 7919 + 14)
+    lines = []
+    for d in ["bytes", "enc", "mask", "raw", "rgb565", "rgb555"]:
+        lines.append(pure_line(f"c14-{d}", [f"color,{d}"]))
+    if tier == "quick":
+        for k in range(4):
+            lines.append(pure_line(f"c14-rgb888-{k}", [f"color,rgb888,61,{rnd.randint(0, 60)}"]))
+    else:
+        # all 2^24 values, in 16 interleaved shards
+        for k in range(16):
+            lines.append(pure_line(f"c14-rgb888-{k}", [f"color,rgb888,16,{k}"]))
+    # individual boundary values around the brightness threshold and the palette
+    ops = []
+    for (r, g, b) in [(0, 0, 0), (255, 255, 255), (127, 128, 127), (128, 128, 127), (128, 127, 127), (255, 128, 0), (254, 128, 1),
+                      (0, 0, 1), (255, 255, 254), (200, 100, 82), (200, 100, 83)] + [(rnd.randint(0, 255), rnd.randint(0, 255), rnd.randint(0, 255)) for _ in range(40)]:
+        ops.append(f"color,rgbone,888,{r},{g},{b}")
+    for i in range(0, len(ops), 10):
+        lines.append(pure_line(f"c14-one888-{i}", ops[i:i + 10]))
+    return {"v3": lines, "stats": {"lines": len(lines), "rgb888": "stride 61 x4 offsets" if tier == "quick" else "all 2^24 values"}}
+
+
+ALIASES = {  # panel -> (kind, number of colours)
+    "epd1in02": ("bw", 2), "epd1in54": ("bw", 2), "epd1in54_v2": ("bw", 2), "epd1in54b": ("bw", 2), "epd1in54c": ("bw", 2),
+    "epd2in13_v2": ("bw", 2), "epd2in13b_v4": ("tri", 3), "epd2in13bc": ("tri", 3), "epd2in66b": ("tri", 3), "epd2in7": ("bw", 2),
+    "epd2in7_v2": ("bw", 2), "epd2in7b": ("bw", 2), "epd2in9": ("bw", 2), "epd2in9_v2": ("bw", 2), "epd2in9b_v4": ("tri", 3),
+    "epd2in9bc": ("bw", 2), "epd2in9d": ("bw", 2), "epd3in7": ("bw", 2), "epd4in2": ("bw", 2), "epd5in65f": ("oct", 8),
+    "epd5in83_v2": ("bw", 2), "epd5in83b_v2": ("tri", 3), "epd7in3f": ("oct", 8), "epd7in5": ("bw", 2), "epd7in5_hd": ("bw", 2),
+    "epd7in5_v2": ("bw", 2), "epd7in5b_v2": ("tri", 3),
+}
+NCOL = {"bw": 2, "tri": 3, "oct": 8}
+
+
+def gen_c03(tier, seed):
+    rnd = random.Random(seed * 7919 + 3)
+    lines = []
+    n = 0
+    if tier == "quick":
+        targets = ["epd1in02", "epd2in13b_v4", "epd5in65f"]
+    else:
+        targets = list(ALIASES)
+    for t in targets:
+        kind, ncol = ALIASES[t]
+        cols = list(range(ncol))
+        if tier == "quick" and ncol > 3:
+            cols = rnd.sample(cols, 3)
+        for rot in (0, 90, 180, 270):
+            for c in cols:
+                lines.append(pure_line(f"c03-a{n}", [f"setpx,{t},{rot},{c},{rnd.randint(1, 10**6)},grid"]))
+                n += 1
+            lines.append(pure_line(f"c03-x{n}", [f"setpx,{t},{rot},{rnd.randrange(ncol)},{rnd.randint(1, 10**6)},ext"]))
+            n += 1
+    # run-time sized buffers: every geometry x colour type x rotation
+    gmax = 16 if tier == "quick" else 40
+    ops = []
+    for w in range(1, gmax + 1):
+        for h in range(1, gmax + 1):
+            for kind in ("bw", "tri", "oct"):
+                for rot in (0, 90, 180, 270):
+                    if tier != "quick" and max(w, h) > 16 and rnd.random() < 0.5:
+                        continue
+                    ops.append(f"setpx,var:{w}:{h}:{kind}:{rnd.randint(0, 1)}:{rnd.randint(0, 3)},{rot},{rnd.randrange(NCOL[kind])},{rnd.randint(1, 10**6)},grid")
+    for i in range(0, len(ops), 40):
+        lines.append(pure_line(f"c03-v{i}", ops[i:i + 40]))
+    ops = []
+    for (w, h) in [(1, 1), (7, 3), (8, 8), (9, 2), (13, 5), (16, 16), (33, 9)]:
+        for kind in ("bw", "tri", "oct"):
+            for rot in (0, 90, 180, 270):
+                ops.append(f"setpx,var:{w}:{h}:{kind}:{rnd.randint(0, 1)}:2,{rot},{rnd.randrange(NCOL[kind])},{rnd.randint(1, 10**6)},ext")
+    for i in range(0, len(ops), 12):
+        lines.append(pure_line(f"c03-e{i}", ops[i:i + 12]))
+    return {"v3": lines, "stats": {"alias_targets": targets, "var_geometries_max": gmax, "batches": n + len(ops)}}
+
+
+def gen_c13(tier, seed):
+    rnd = random.Random(seed * 7919 + 13)
+    lines = [pure_line("c13-alias", ["alias"])]
+    gmax = 64
+    ops = []
+
+    def lb(w, bpp):
+        return (w * bpp + 7) // 8
+    for w in range(0, gmax + 1):
+        for h in range(0, gmax + 1):
+            if tier == "quick" and (w > 20 and h > 20) and rnd.random() < 0.8:
+                continue
+            for kind, bpp, planes in (("bw", 1, 1), ("tri", 1, 2), ("oct", 4, 1)):
+                req = planes * h * lb(w, bpp)
+                acc = h * lb(w, bpp * planes)
+                for ln in sorted({max(req - 1, 0), req, req + 1, 0, max(acc - 1, 0), acc}):
+                    ops.append(f"vardisp,{w},{h},{kind},{ln}")
+    for i in range(0, len(ops), 400):
+        lines.append(pure_line(f"c13-v{i}", ops[i:i + 400]))
+    g = 20 if tier == "quick" else 64
+    lines.append(pure_line("c13-grid", [f"vargrid,{g},{g}"]))
+    b = 512 if tier == "quick" else 2048
+    lines.append(pure_line("c13-buflen", [f"buflen,{b},{b}"]))
+    return {"v3": lines, "stats": {"vardisp_ops": len(ops), "vargrid": g, "buflen_grid": b}}
+
+
 PROPS = {
+    "C03": {
+        "props": ["C03"], "view": "raw", "gen": gen_c03,
+        "rule": "setpx batches: the real set_pixel / draw_iter is called for every point of [-3,W+3]x[-3,H+3] (mode grid) or the i32 extremes (mode ext) on a PRNG-filled buffer; after every call the whole exposed buffer is compared with its previous state and (index, new byte) of every changed byte is hashed; the model predicts the same hash. quick: 3 aliases (bw / tri with width 122 / oct) x 4 rotations x colours, all VarDisplay geometries 1..16^2 x 3 colour types x 4 rotations; thorough: all 27 aliases x all colours, geometries to 40^2. non-trivial = batches that changed at least one byte",
+        "assumptions": ["dev/test profile (i32 overflow panics)", "width, height < 2^30 (as i32 casts exact)"],
+    },
+    "C13": {
+        "props": ["C13"], "view": "raw", "gen": gen_c13,
+        "rule": "alias table printed from the compiled crate (27 rows: size(), buffer().len(), zero-init, halves, observed BWRBIT); VarDisplay::new for w,h in 0..=64 x 3 colour types x lengths {need-1, need, need+1, 0, accepted-1, accepted}; vargrid: every pixel of every accepted buffer drawn (0..=20 quick / 0..=64 thorough); buffer_len hashed over 0..=512^2 (quick) / 0..=2048^2 (thorough)",
+        "assumptions": [],
+    },
+    "C14": {
+        "props": ["C14"], "view": "raw", "gen": gen_c14,
+        "rule": "every domain of the colour API printed by the real functions: all 256 bytes (from_u8, from_nibble, split_byte), all colours (bit/byte/nibble/rgb/inverse), all 64 pairs, bitmask for 16 positions x 2 bwrbit x 13 colours, all raw values, BinaryColor, all 65536 Rgb565 and 32768 Rgb555 values, Rgb888: 4 strided samples of 275k values (quick) / all 2^24 (thorough); compared with the model and checked by the oracle (round trips, brightness-nearest spec); non-trivial = every op (each covers a whole domain)",
+        "assumptions": ["embedded-graphics RGB types expose raw channel values r(),g(),b() with maxima 255/31/63 (documented contract)"],
+    },
     "C16": {
         "props": ["C16"], "view": "raw", "gen": gen_c16,
         "rule": "rect ops: random/boundary u32 rectangles (incl. overflow and underflow cases), all pairs with fields in 0..=2 individually (pixel-set oracle evaluated on the implementation's results), hash of all pairs with fields in 0..=5 (quick) / 0..=8 (thorough); a case is non-trivial when both rectangles are non-empty",
